@@ -656,7 +656,7 @@ _BASE = dict(Px='"px"', Names='{"a","b","d","u"}', Attached='<- MC_Attached', Di
              Cap='2', MaxEnv='3', SrcKinds='{"own"}', SpoofNames='{}', Dsts='{"a","b","d","u"}',
              Nxts='<- MC_NoRoute', Writers='{"a","b","d"}', FaultKinds='{}', FaultNames='{}', MaxFaults='0',
              ReattachNames='{}', MaxReattach='0', AllowCancel='FALSE', Fine='TRUE',
-             Bug_D12='FALSE', Bug_D13='FALSE', Bug_D14='FALSE')
+             LateAttach='{}', Bug_D12='FALSE', Bug_D13='FALSE', Bug_D14='FALSE', Bug_SplitLookup='FALSE')
 _SAFE = ('TypeOK ExactlyOnceOrDropped RightPeerUnchanged RecordAppendedOnce PairOrder DialOnce '
          'NoSpoofForwarded NoCrash NewerConnectionSurvives')
 
@@ -699,6 +699,15 @@ MODELS_C16 = [
     _m('Proxy burst (DropFull)', 'a writes 5 (quick) / 6 envelopes to b which may get stuck; buffer 2',
        dict(quick=model_cfg(MaxEnv='5', FaultKinds='{"stuck"}', FaultNames='{"b"}', MaxFaults='1', **_AB),
             thorough=model_cfg(MaxEnv='6', FaultKinds='{"stuck"}', FaultNames='{"b"}', MaxFaults='1', **_AB))),
+]
+
+_LATE = dict(_ABD, Dialable='{"d"}', Writers='{"a"}', Dsts='{"d"}', LateAttach='{"d"}', MaxReattach='1', Fine='FALSE')
+MODELS_C16 += [
+    _m('Proxy late attach', 'd attaches (AddClient) for the first time at any moment while a writes 3 envelopes to it (d is dialable too): '
+       'whatever was registered last stays registered, every envelope is delivered once to a connection of d',
+       model_cfg(**_LATE)),
+    _m('Bug_SplitLookup (lookup and on-demand registration in two critical sections)', 'as "Proxy late attach" with the seeded change C16-r4m1',
+       expect='Invariant NewerConnectionSurvives is violated', cfg=model_cfg(Bug_SplitLookup='TRUE', **_LATE), exhaustive=False),
 ]
 
 MODELS_C17 = [
